@@ -91,7 +91,7 @@ pub fn run(a: &Args) {
             sink.count("stopped-early-after-timeouts");
             break;
         }
-        let hs: Vec<_> = chunk.iter().map(|&(c, s, t)| std::thread::spawn(move || ((c, s, t), scenario(c, s, t)))).collect();
+        let hs: Vec<_> = chunk.iter().map(|&(c, s, t)| std::thread::spawn(move || ((c, s, t), crate::l2::watchdog(format!("l2 {} {} {}", c, s, t), 150, move || scenario(c, s, t))))).collect();
         for h in hs {
             match h.join() {
                 Ok(((c, s, t), Some(term))) => {
